@@ -250,13 +250,12 @@ def build(case, with_contract=False, with_control=False):
     hs = [Harness("ob_fmt", "forall formatter options o, field values. post_fmt(v, o, out); " + what, fn=fn, cover_min=2)]
     if tr and tr[0] == "Pointer" and case.attr and case.attr.args:
         # Pointer with an argument expression: if the derive formatted a REFERENCE to the expression, std's pointer formatting would run
-        # under a symbolic width (padding loops: no verdict within the time limit). The same obligation restricted to width = None,
-        # no `#` decides such a deviation at once; ob_fmt stays unrestricted.
-        proofs.append(harness_text("ob_fmt_no_width", td, v, True, "post_fmt(&v, o, &out)",
-                                   [("o.get_fill() != ' ' && o.get_precision().is_some() && out.1 && out.0.len >= %d" % minlen, "non-default options, output produced")],
-                                   assume="o.get_width().is_none() && !o.get_alternate()"))
-        hs.append(Harness("ob_fmt_no_width", "forall formatter options o with width = None and no `#`, field values. post_fmt(v, o, out); " + what, fn=fn, cover_min=1,
-                          bounded="formatter options restricted to width = None, alternate = false (a sub-case of ob_fmt)"))
+        # under symbolic flags (padding loops x fill encoding: no verdict within the time / memory limit, measured). The same obligation
+        # at the concrete default options decides such a deviation in seconds; ob_fmt stays unrestricted.
+        proofs.append(harness_text("ob_fmt_default_opts", td, v, False, "post_fmt(&v, o, &out)",
+                                   [("out.1 && out.0.len >= %d" % minlen, "output produced")]))
+        hs.append(Harness("ob_fmt_default_opts", "default formatter options, forall field values. post_fmt(v, o, out); " + what, fn=fn, cover_min=1,
+                          bounded="formatter options fixed to the default (a sub-case of ob_fmt)"))
     if with_contract:
         items.append("#[cfg_attr(kani, kani::ensures(|r| post_fmt(v, o, r)))]\n"
                      "pub fn fmt_contract(v: &T, o: FormattingOptions) -> (Sink, bool) { run(o, |f| <T as fmt::%s>::fmt(v, f)) }\n" % td.derive)
